@@ -385,3 +385,26 @@ pub fn ops_of(rng: &mut Rng, lines: Vec<(i64, Vec<u8>, String)>, ch: Chunking) -
     }
     ops
 }
+
+/// Ordinary well-formed traffic: `n` frames from the given aircraft with gaps
+/// from the boundary mixture (capped at `max_gap_us`).
+pub fn traffic(rng: &mut Rng, acs: &mut [Ac], n: usize, d: i64, kinds: &[Kind], valid: bool, deco: bool, max_gap_us: i64) -> Vec<(i64, Vec<u8>, String)> {
+    let mut lines = vec![];
+    for _ in 0..n {
+        let a = rng.below(acs.len() as u64) as usize;
+        let k = *rng.pick(kinds);
+        let f = frame(rng, &mut acs[a], k, valid);
+        // aircraft move a little between frames
+        acs[a].lat = (acs[a].lat + (rng.f64() - 0.5) * 0.002).clamp(-86.0, 86.0);
+        acs[a].lon += (rng.f64() - 0.5) * 0.002;
+        lines.push((gap_us(rng, d).min(max_gap_us), line_of(rng, &f, deco), format!("{:?}", k).to_lowercase()));
+    }
+    lines
+}
+
+pub const COMMON_KINDS: &[Kind] = &[
+    Kind::Df11, Kind::Ident, Kind::AirPos, Kind::AirPos, Kind::Vel12, Kind::Vel34, Kind::Df4, Kind::Df5, Kind::Df0, Kind::Df16,
+    Kind::SurfPos, Kind::Tc31, Kind::Gnss, Kind::Tc28, Kind::Tc29, Kind::Df18,
+    Kind::Df20(Reg::B17), Kind::Df20(Reg::B20), Kind::Df20(Reg::B40), Kind::Df20(Reg::B50), Kind::Df20(Reg::B60), Kind::Df20(Reg::Random),
+    Kind::Df21(Reg::B17), Kind::Df21(Reg::B20), Kind::Df21(Reg::B50), Kind::Df21(Reg::Random),
+];
